@@ -2,6 +2,7 @@
 // @h c10_int_q_none tier=quick
 // @h c10_int_q_uint8 tier=quick
 // @h c10_int_q_int64 tier=quick
+// @h c10_int_q_uint64 tier=quick
 // @h c10_int_q_excl_none tier=quick
 // @h c10_int_q_excl_uint8 tier=quick
 // @h c10_int_q_default_uint8 tier=quick
@@ -234,6 +235,7 @@ macro_rules! int_harness {
 int_harness!(c10_int_q_none, None, 0b000011);
 int_harness!(c10_int_q_uint8, Some("uint8"), 0b000011);
 int_harness!(c10_int_q_int64, Some("int64"), 0b000011);
+int_harness!(c10_int_q_uint64, Some("uint64"), 0b000011);
 // quick tier: exclusive bounds only
 int_harness!(c10_int_q_excl_none, None, 0b001100);
 int_harness!(c10_int_q_excl_uint8, Some("uint8"), 0b001100);
